@@ -529,8 +529,10 @@ class _Reader:
             ctype, l_ci = data[pos], data[pos + 1]
             ident = data[pos + 4:pos + 4 + l_ci]
             pos += 4 + l_ci
-            if ctype == 2 and not comps and not absolute:
+            if ctype == 2:
+                # root of the file system: the path (re)starts there
                 absolute = True
+                comps = []
             elif ctype == 3:
                 comps.append('..')
             elif ctype == 4:
